@@ -62,7 +62,7 @@ fn body_digest<T: Serialize>(b: &T) -> u64 {
 
 /// Generate an explicit fault-free history by running it (adaptive generation needs the state).
 pub fn gen_history(rng: Rng, cfg: &RunCfg, focus: u32) -> Option<Vec<Step>> {
-    let r = run_hist(cfg, StepSrc::Gen(Gen::new(rng)), &HistOpts { focus, snapshot: false, trace: false, huge_hints: false, alloc_faults: false });
+    let r = run_hist(cfg, StepSrc::Gen(Gen::new(rng)), &HistOpts { focus, snapshot: false, trace: false, huge_hints: false, alloc_faults: false, amplify: false });
     // if the generating run itself diverges, the steps up to and including the diverging one
     // are still a perfectly good explicit history: the twin comparison decides what it means
     match r.end {
